@@ -58,7 +58,7 @@ def CurrentFunc(base, amp, w):
     base = dict(base)
 
     def terminal_currents(t):
-        f = 1.0 + amp * math.sin(w * t)
+        f = np.float64(1.0) + amp * np.sin(w * t)  # numpy scalars, as user code typically produces
         return {k: v * f for k, v in base.items()}
 
     return terminal_currents
